@@ -9,14 +9,17 @@ LEVEL_NOTE = "Alternatives equal up to case (finding D19) are outside the theore
 TECHNIQUE = 'Lean 4 theorems on the choice fetch/extract model + differential correspondence (single and multi-source) + clause-by-clause oracle'
 RULE = ("alternative lists (2..5 names, any default stars, quoted or not) x single/multi x optional {None,True,False} x source "
         "spellings (starred subsets, bare single names in any case, a+b forms, None, Auto, unknown names starred or not, quoted "
-        "names, repeated names) x 1..4 matching sources per parameter in four layouts; non-trivial = the source selects or "
-        "names something; distinct = (master, source[s])")
+        "names, repeated names) x 1..4 matching sources per parameter in four layouts; x source definition OBJECTS made through "
+        "the API (try_tokenize, customized_copy, copy/deepcopy/pickle + words, edited or handed-back working phil, constructed, "
+        "text with its own .type; incl. empty word lists and 1-alternative masters) delivered by definition.fetch / hand-built "
+        "scopes / adopt / after a text source; x further instances of a .multiple choice in the master, with and without a "
+        "repeated .type line; non-trivial = the source selects or names something; distinct = (master, source[s], route)")
 ASSUMPTIONS = ["alternative names are identifiers or quoted strings without '*' or '+'"]
 NAMES = ["a", "b", "c", "dd", "Ee", "x_y", "none1", "q r", "z.9"]
 
 
-def master_text(rng, dup_case=False):
-    k = rng.randint(2, 5)
+def master_text(rng, dup_case=False, k=None):
+    k = rng.randint(2, 5) if k is None else k
     names = rng.sample(NAMES, k)
     if dup_case:
         names[1] = names[0].upper() if names[0].upper() != names[0] else names[0].lower()
@@ -223,6 +226,8 @@ def run(ctx):
             cases, reqs, impls = [], [], []
     flush(ctx, cases, reqs, impls)
     run_multi(ctx)
+    run_routes(ctx)
+    run_instances(ctx)
 
 
 # ---- several matching sources for one choice parameter ("the last matching source" clause) ----------------------------
@@ -363,6 +368,339 @@ def run_multi(ctx):
     flush_multi()
 
 
+# ---- sources that are not parsed text ("any source"): definition objects made through the API ------------------------------
+
+ROUTES = ["parsed", "typed_text", "typed_text_other", "constructed", "tokenize", "customized_copy", "copy_assign",
+          "working_assign", "working_customized", "deepcopy_assign", "pickle_assign", "tokenize_of_copy", "refetch"]
+DELIVERIES = ["definition.fetch", "scope(objects=[...])", "adopt", "sources_after_text"]
+
+
+def parsed_words(stext):
+    if not stext.strip():
+        return []  # no text source can say this; an object made through the API can
+    src = freephil.parse(input_string="v = " + stext + "\n")
+    if len(src.objects) != 1 or not src.objects[0].is_definition:
+        return None
+    return src.objects[0].words
+
+
+def build_source(route, m, mdef, path, stext, multi):
+    """a source DEFINITION OBJECT carrying the value `stext`, made the way `route` says; None when the route does not
+    apply to this text. The merge may depend on the words of the source only, never on how the object came about
+    (which converter object, attributes, parent, flags it carries)."""
+    import copy
+    import pickle
+    if route == "tokenize" or route == "tokenize_of_copy":  # the GUI way: user input tokenized against the master definition
+        d = mdef if route == "tokenize" else mdef.copy()
+        proxy = d.try_tokenize(input_string=stext, source_info="user input")
+        return None if proxy.error_message is not None else proxy.tokenized
+    words = parsed_words(stext)
+    if words is None:
+        return None
+    if not words and route in ("parsed", "typed_text", "typed_text_other"):
+        return None
+    if route == "parsed":
+        return freephil.parse(input_string="v = " + stext + "\n").objects[0]
+    if route == "typed_text":  # a text source that declares the type itself (a converter object of its own)
+        return freephil.parse(input_string="v = %s\n  .type = choice%s\n" % (stext, "(multi=True)" if multi else "")).objects[0]
+    if route == "typed_text_other":  # ... and one that declares the other flavour
+        return freephil.parse(input_string="v = %s\n  .type = choice%s\n  .optional = True\n"
+                              % (stext, "" if multi else "(multi=True)")).objects[0]
+    if route == "constructed":
+        return freephil.definition(name="v", words=words)
+    if route == "customized_copy":
+        return mdef.customized_copy(words=words)
+    if route == "copy_assign":
+        d = mdef.copy()
+        d.words = words
+        return d
+    if route in ("working_assign", "working_customized"):  # a definition of a working phil (fetched earlier), edited
+        w = m.fetch().get(path).objects[0]
+        if route == "working_customized":
+            return w.customized_copy(words=words)
+        w.words = words
+        return w
+    if route == "refetch":  # the result of merging the text, handed back as a source (working phil fed back in)
+        try:
+            return m.fetch(source=freephil.parse(input_string="%s = %s\n" % (path, stext))).get(path).objects[0]
+        except BaseException as e:
+            if isinstance(e, (KeyboardInterrupt, MemoryError)):
+                raise
+            return None
+    if route == "deepcopy_assign":
+        d = copy.deepcopy(mdef)
+        d.words = words
+        return d
+    if route == "pickle_assign":
+        d = pickle.loads(pickle.dumps(mdef))
+        d.words = words
+        return d
+    raise ValueError(route)
+
+
+def deliver(how, m, mdef, path, sdef):
+    """merge the source definition object into the master parameter; returns the resulting definition"""
+    if how == "definition.fetch":
+        return mdef.fetch(source=sdef)
+    comps = path.split(".")
+    if how == "scope(objects=[...])":
+        inner = sdef
+        for c in reversed(comps[:-1]):
+            inner = freephil.scope(name=c, objects=[inner])
+        return m.fetch(source=freephil.scope(name="", objects=[inner])).get(path).objects[0]
+    root = freephil.parse(input_string="".join("%s {\n" % c for c in comps[:-1]) + "}\n" * (len(comps) - 1))
+    at = root
+    for c in comps[:-1]:
+        at = at.objects[0]
+    at.adopt(sdef)
+    if how == "adopt":
+        return m.fetch(source=root).get(path).objects[0]
+    if how == "sources_after_text":  # after a text source that repeats the master's default
+        first = freephil.parse(input_string="%s = %s\n" % (path, " ".join(str(w) for w in mdef.words)))
+        return m.fetch(sources=[first, root]).get(path).objects[0]
+    raise ValueError(how)
+
+
+def route_outcome(how, m, mdef, path, sdef):
+    err = result = None
+    try:
+        result = deliver(how, m, mdef, path, sdef)
+    except BaseException as e:
+        if isinstance(e, (KeyboardInterrupt, MemoryError)):
+            raise
+        err = e
+    return result, err
+
+
+def words_key(words):
+    return [(w.value, w.quote_token) for w in words]
+
+
+def route_case(rng):
+    """master (1..5 alternatives; in a scope or not), a source spelling, a route, a delivery"""
+    mtext, names, multi, opt = master_text(rng, k=1 if rng.random() < 0.12 else None)
+    path = "v"
+    if rng.random() < 0.4:
+        path = "s.v"
+        mtext = "s {\n%s}\n" % mtext
+    k = rng.random()
+    if k < 0.08:
+        stext = ""  # nothing typed
+    elif k < 0.2:  # what a front-end hands back: the master's own list, stars moved
+        ws = []
+        for nm in names:
+            star = "*" if rng.random() < 0.4 else ""
+            ws.append('"%s%s"' % (star, nm) if " " in nm else star + nm)
+        stext = " ".join(ws)
+    else:
+        stext = source_text(rng, names, [] if rng.random() < 0.6 else None)
+    return mtext, path, names, multi, opt, stext
+
+
+def run_routes(ctx):
+    import random
+    rng = random.Random("C11-routes-%d-%s" % (ctx.seed, ctx.mode))
+    n = ctx.scale(700, 20000, 1200)
+    cases, reqs, impls, fails = [], [], [], []
+
+    def flush_routes():
+        if not reqs:
+            return
+        answers = [None] * len(reqs)
+        if ctx.mode != "impl-only":
+            answers = ctx.corr("choice_fetch_route", cases, reqs, impls)
+        for c, a, i, f in zip(cases, answers, impls, fails):
+            if f:
+                ctx.fail(c, f, model_violates=None if (a is None or a[0] in ("unsupported", "parse-failed", "type-failed"))
+                         else (a == i))
+        del cases[:], reqs[:], impls[:], fails[:]
+    for i in range(n):
+        if ctx.time_left() < 25:
+            ctx.notes.append("source-route stream stopped early on time budget")
+            break
+        mtext, path, names, multi, opt, stext = route_case(rng)
+        try:
+            m = freephil.parse(input_string=mtext)
+        except BaseException:
+            ctx.count("route_unparseable")
+            continue
+        mdef = m.get(path).objects[0]
+        master_before = words_key(mdef.words)
+        reference = {}  # words of the source -> outcome through plain parsed text
+        for route in ["parsed"] + rng.sample(ROUTES[1:], 4):
+            try:
+                sdef = build_source(route, m, mdef, path, stext, multi)
+            except BaseException as e:
+                if isinstance(e, (KeyboardInterrupt, MemoryError)):
+                    raise
+                ctx.count("route_source_not_built")
+                continue
+            if sdef is None:
+                ctx.count("route_not_applicable")
+                continue
+            sw = list(sdef.words)
+            for how in (DELIVERIES if route == "parsed" else rng.sample(DELIVERIES, 2)):
+                case = {"master": mtext, "source_value": stext, "route": route, "delivery": how}
+                ctx.case(("route", mtext, stext, route, how), nontrivial=stext.lower() not in ("none", "auto"))
+                ctx.count("route_cases")
+                ctx.count("route_" + route)
+                ctx.count("route_delivery_" + how)
+                if len(names) == 1:
+                    ctx.count("route_one_alternative")
+                result, err = route_outcome(how, m, mdef, path, sdef)
+                ctx.count("route_outcome_" + ("ok" if err is None else type(err).__name__))
+                f = oracle(mdef, names, multi, opt, sw, result, err)
+                if f is None and words_key(mdef.words) != master_before:
+                    f = "the merge changed the master's own alternatives to %r" % (words_key(mdef.words),)
+                if f is None and words_key(sdef.words) != words_key(sw):
+                    f = "the merge changed the source's words to %r" % (words_key(sdef.words),)
+                ia = call_j(lambda: deliver(how, m, mdef, path, sdef), lambda r: [word_j(w) for w in r.words])
+                if ia[0] == "err" and ia[1] == "sorry" and ia[2].startswith("Not a possible choice"):
+                    ia = ["err", "sorry", "not_a_possible_choice", [enc(w.value) for w in mdef.words]]
+                key = repr(words_key(sw))
+                if route == "parsed" and key not in reference:
+                    reference[key] = outcome_key(ia)
+                elif f is None and key in reference and outcome_key(ia) != reference[key]:
+                    f = ("outcome depends on how the source object was made: %r, but %r for the same words parsed from text"
+                         % (outcome_key(ia), reference[key]))
+                cases.append(case)
+                fails.append(f)
+                reqs.append(["choice_fetch", [word_j(w) for w in mdef.words], attr_j(mdef.optional), [word_j(w) for w in sw], False])
+                impls.append(ia)
+        if i % 200 == 0:
+            ctx.sample({"master": mtext, "source_value": stext, "routes": ROUTES, "deliveries": DELIVERIES})
+        if len(reqs) >= 4000:
+            flush_routes()
+    flush_routes()
+
+
+# ---- further instances of a `.multiple` choice parameter written in the master itself act as sources -------------------
+
+def inst_key(names, opt, words):
+    """what one further instance asks for: 'Auto', a tuple of master names (in master order), None = a selected name is
+    not an alternative, 'skip' = the + form with upper-case letters"""
+    if is_plain(words, "auto"):
+        return "Auto"
+    if is_plain(words, "none") and opt is not False:
+        return ()
+    r = requested(names, words)
+    if r is None or r == "skip":
+        return r
+    return tuple(n for n in names if n in r)
+
+
+def instances_oracle(mdef, names, multi, opt, inst_words, objs, err):
+    keys = [inst_key(names, opt, w) for w in inst_words]
+    if err is not None:
+        if type(err) is RuntimeError:
+            return None
+        if not isinstance(err, freephil.Sorry):
+            return "raised %s" % type(err).__name__
+        whats = [oracle(mdef, names, multi, opt, w, None, err) for w in inst_words]
+        return whats[0] if all(whats) else None
+    if None in keys:
+        return "a further instance selects a name that is not an alternative, yet no error was raised"
+    if not objs or words_key(objs[0].words) != words_key(mdef.words):
+        return "the declaration itself is not the first instance of the result"
+    want = [(unstar(w.value), w.quote_token) for w in mdef.words]
+    got_keys = []
+    for o in objs[1:]:
+        if words_key(o.words) == [("Auto", None)]:
+            got_keys.append("Auto")
+            continue
+        if [(unstar(w.value), w.quote_token) for w in o.words] != want:
+            return "an instance of the result does not list the master's alternatives: %r (master %r)" % (words_key(o.words), want)
+        got_keys.append(tuple(unstar(w.value) for w in o.words if w.value.startswith("*")))
+    if "skip" in keys:
+        return None
+    default = tuple(unstar(w.value) for w in mdef.words if w.value.startswith("*"))
+    if len(set(got_keys)) != len(got_keys) or set(got_keys) != set(keys) - {default}:
+        return "instances select %r, the further instances asked for %r (default %r)" % (got_keys, keys, default)
+    return None
+
+
+def instances_texts(rng, mtext, path, multi, values):
+    """the master with `.multiple = True` and one further instance per value; twice: bare assignments, and assignments that
+    repeat the `.type` line (or only some of them do)"""
+    inner = mtext[len("s {\n"):-len("}\n")] if path == "s.v" else mtext
+    typ = "  .type = choice%s\n" % ("(multi=True)" if multi else "")
+    some = [rng.random() < 0.7 for _ in values]
+    if not any(some):
+        some[rng.randrange(len(some))] = True
+    out = []
+    for typed in (False, True):
+        t = inner + "  .multiple = True\n" + "".join("v = %s\n%s" % (v, typ if typed and sm else "") for v, sm in zip(values, some))
+        out.append("s {\n%s}\n" % t if path == "s.v" else t)
+    return out
+
+
+def run_instances(ctx):
+    import random
+    from props import _fetch
+    rng = random.Random("C11-instances-%d-%s" % (ctx.seed, ctx.mode))
+    n = ctx.scale(500, 15000, 800)
+    cases, reqs, impls, fails = [], [], [], []
+
+    def flush_inst():
+        if not reqs:
+            return
+        answers = [None] * len(reqs)
+        if ctx.mode != "impl-only":
+            answers = ctx.corr("choice_fetch_master_instances", cases, reqs, impls, proj=lambda r: [r[0], r[2]])
+        for c, a, i, f in zip(cases, answers, impls, fails):
+            if f:
+                agrees = None
+                if a is not None and a[0] not in ("unsupported", "parse-failed", "type-failed"):
+                    agrees = (a[0] == i[0]) if "ok" not in (a[0], i[0]) else (a[0] == i[0] and [a[1][0], a[1][2]] == [i[1][0], i[1][2]])
+                ctx.fail(c, f, model_violates=agrees)
+        del cases[:], reqs[:], impls[:], fails[:]
+    for i in range(n):
+        if ctx.time_left() < 25:
+            ctx.notes.append("master-instance stream stopped early on time budget")
+            break
+        mtext, path, names, multi, opt, _ = route_case(rng)
+        values = []
+        for _ in range(rng.choice([1, 1, 2, 3])):
+            v = source_text(rng, names, [] if rng.random() < 0.8 else None)
+            values.append(v)
+        try:
+            iw = [parsed_words(v) for v in values]
+            if any(not w for w in iw):
+                continue
+            plain, typed = instances_texts(rng, mtext, path, multi, values)
+            mdef = freephil.parse(input_string=mtext).get(path).objects[0]
+            ms = [freephil.parse(input_string=t) for t in (plain, typed)]
+        except BaseException:
+            ctx.count("instances_unparseable")
+            continue
+        seen = []
+        for t, m in zip((plain, typed), ms):
+            ctx.case(("instances", t), nontrivial=True)
+            ctx.count("instances_cases")
+            objs = err = None
+            try:
+                objs = m.fetch().get(path).objects
+            except BaseException as e:
+                if isinstance(e, (KeyboardInterrupt, MemoryError)):
+                    raise
+                err = e
+            ctx.count("instances_outcome_" + ("ok" if err is None else type(err).__name__))
+            f = instances_oracle(mdef, names, multi, opt, iw, objs, err)
+            seen.append(type(err).__name__ if err is not None else [words_key(o.words) for o in objs])
+            if f is None and len(seen) == 2 and seen[0] != seen[1]:
+                f = ("outcome depends on whether the further instances repeat the .type line: %r, without it %r"
+                     % (seen[1], seen[0]))
+            cases.append({"master": t, "sources": [], "instances": values, "bare": plain})
+            fails.append(f)
+            reqs.append(_fetch.fetch_req(t, []))
+            impls.append(_fetch.fetch_impl(m, []))
+        if i % 200 == 0:
+            ctx.sample({"master": typed, "instances": values})
+        if len(reqs) >= 2000:
+            flush_inst()
+    flush_inst()
+
+
 def outcome_key(ia):
     """outcome of one choice fetch without line numbers"""
     if ia[0] == "ok":
@@ -439,10 +777,53 @@ def finding_still_fails(f):
     return [x.value for x in r.words] == w["observed"]
 
 
+def replay_object_source(c):
+    m = freephil.parse(input_string=c["master"])
+    path = "s.v" if m.objects[0].is_scope else "v"
+    mdef = m.get(path).objects[0]
+    names = [unstar(w.value) for w in mdef.words]
+    multi = mdef.type.multi
+    if "instances" in c:
+        objs = err = None
+        try:
+            objs = m.fetch().get(path).objects
+        except BaseException as e:
+            err = e
+        f = instances_oracle(mdef, names, multi, mdef.optional, [parsed_words(v) for v in c["instances"]], objs, err)
+        print("outcome:", "\n".join(o.as_str() for o in objs) if err is None else "%s: %s" % (type(err).__name__, err))
+        if f is None:  # the same master with bare further instances (no repeated .type line)
+            bare = freephil.parse(input_string=c["bare"])
+            try:
+                other = [words_key(o.words) for o in bare.fetch().get(path).objects]
+            except BaseException as e:
+                other = type(e).__name__
+            if other != (type(err).__name__ if err is not None else [words_key(o.words) for o in objs]):
+                f = "outcome depends on whether the further instances repeat the .type line: without it %r" % (other,)
+    else:
+        sdef = build_source(c["route"], m, mdef, path, c["source_value"], multi)
+        sw = list(sdef.words)
+        print("source object: route %s, words %r, delivered by %s" % (c["route"], words_key(sw), c["delivery"]))
+        result, err = route_outcome(c["delivery"], m, mdef, path, sdef)
+        f = oracle(mdef, names, multi, mdef.optional, sw, result, err)
+        print("outcome:", result.as_str() if err is None else "%s: %s" % (type(err).__name__, err))
+        if f is None and c["route"] != "parsed" and sw and c["route"] != "refetch":
+            ref = build_source("parsed", m, mdef, path, c["source_value"], multi)
+            if ref is not None and words_key(ref.words) == words_key(sw):
+                r2, e2 = route_outcome(c["delivery"], m, mdef, path, ref)
+                a = type(err).__name__ if err is not None else words_key(result.words)
+                b = type(e2).__name__ if e2 is not None else words_key(r2.words)
+                if a != b:
+                    f = "outcome depends on how the source object was made: %r for the same words parsed from text" % (b,)
+    print("oracle:", f or "all clauses hold")
+    return f is None
+
+
 def replay(payload):
     """re-evaluates the oracle on the stored input (single-source and multi-source cases)"""
     c = payload["failure"]["case"]
     print(c)
+    if "route" in c or "instances" in c:
+        return replay_object_source(c)
     if "master" not in c or ("source" not in c and "sources" not in c) or "order" in c:
         return False
     m = freephil.parse(input_string=c["master"])
